@@ -76,9 +76,9 @@ Section Top.
     destruct (init_result heqb qs idxs []) as [res0|] eqn:Ei; [|discriminate].
     destruct (init_result_spec _ _ _ _ Ei) as (_ & B & C).
     eapply (cpn_sound n Hok hempty hleaf hbranch heqb heqb_eq branch_inj l Hlen (claims_true qs idxs)); [|exact Hrun|exact Hroot].
-    set (wl := sort_idx (filter (fun i => negb (i =? 0)) idxs)).
+    set (wl := sort_idx (nodup N.eq_dec (filter (fun i => negb (i =? 0)) idxs))).
     assert (Hwl : forall Z, In Z wl <-> In Z idxs /\ Z <> 0).
-    { intros Z. unfold wl. rewrite in_sort_idx, filter_In. split; intros [A1 A2]; split; auto; destruct (N.eqb_spec Z 0); cbn in *; congruence. }
+    { intros Z. unfold wl. rewrite in_sort_idx, nodup_In, filter_In. split; intros [A1 A2]; split; auto; destruct (N.eqb_spec Z 0); cbn in *; congruence. }
     assert (Hnode : forall Z, In Z idxs -> Z <> 0 -> exists pos, pos < n /\ Z = leaf_idx pos).
     { intros Z Hin Hne. destruct (Hleaf Z Hin) as [?|?]; [contradiction|assumption]. }
     unfold Inv. repeat split.
